@@ -1,9 +1,10 @@
 import PbVerif.Model.Proto
 import PbVerif.Drv.C02
 import PbVerif.Drv.C11
+import PbVerif.Drv.C14
 open PbVerif
 
-def handlers : List (List String → Option String) := [Drv.C02.handle, Drv.C11.handle]
+def handlers : List (List String → Option String) := [Drv.C02.handle, Drv.C11.handle, Drv.C14.handle]
 
 def step (line : String) : String :=
   let toks := line.trimAscii.toString.splitOn " "
